@@ -36,6 +36,7 @@ from harness.props.c01 import replay, binding_selftest, record_and_validate
 
 PID = 'C02'
 BOTH = ('crossnobis', 'poisson_cv')
+NOCOEF = [i for i in C.C02_INVS if i != 'CoefWithinFoldZero']   # data-independent: checked in the design runs
 
 
 def _coef_chunk(args):
@@ -115,9 +116,9 @@ def run(ctx):
                          priorids=(1, 2), foldsrcs=('explicit', 'default'), emitmod=1 if thorough else 3), 0),
         ('cv_cat6', dict(mode='cv', nobs=6, nch=2, nlab=3, nfold=3, datasrc='cat', dataids=(1, 2) if thorough else (2,),
                          methods=BOTH, rms=(False, True), precids=(0, 1), fprecids=(0, 1), priorids=(1,),
-                         foldsrcs=('explicit', 'default'), emitmod=2 if thorough else 4), 30),
-        ('cv_perm', dict(mode='cv', nobs=4, nch=2, nlab=2, nfold=3 if thorough else 2, datasrc='cat', dataids=(3,),
-                         methods=BOTH, rms=(False, True), precids=(0, 2), fprecids=(0, 2),
+                         foldsrcs=('explicit', 'default'), emitmod=2 if thorough else 4, invs=NOCOEF), 30),
+        ('cv_perm', dict(mode='cv', nobs=4, nch=2, nlab=2, nfold=3, datasrc='cat', dataids=(3,),
+                         methods=BOTH, rms=(False, True) if thorough else (True,), precids=(0, 2), fprecids=(0, 2),
                          priorids=(1, 3) if thorough else (3,),
                          foldsrcs=('explicit', 'default'), permlevel=1, agree=True, emitmod=2), 0),
     ]
@@ -128,10 +129,10 @@ def run(ctx):
                                 invs=['NoSelfPairs', 'AllFoldsUsed', 'EqualWeights', 'CvMatchesLeaveOneOut']), 0),
             ('cv_cat8', dict(mode='cv', nobs=8, nch=2, nlab=2, nfold=2, datasrc='cat', dataids=(1, 4), methods=BOTH,
                              rms=(False, True), precids=(0, 3), fprecids=(0, 2), priorids=(2,),
-                             foldsrcs=('explicit', 'default'), emitmod=3), 30),
+                             foldsrcs=('explicit', 'default'), emitmod=3, invs=NOCOEF), 30),
             ('cv_cat6_3ch', dict(mode='cv', nobs=6, nch=3, nlab=3, nfold=3, datasrc='cat', dataids=(3, 4), methods=BOTH,
                                  rms=(False, True), precids=(0, 2), fprecids=(0, 2), priorids=(3,),
-                                 foldsrcs=('explicit',), emitmod=8), 30),
+                                 foldsrcs=('explicit',), emitmod=8, invs=NOCOEF), 30),
             ('cv_perm6', dict(mode='cv', nobs=6, nch=2, nlab=3, nfold=2, datasrc='cat', dataids=(2,), methods=BOTH,
                               rms=(False,), precids=(0, 1), fprecids=(0, 1), priorids=(1,),
                               foldsrcs=('explicit',), permlevel=1, agree=True, emitmod=20), 0),
